@@ -116,6 +116,11 @@ class LenaSplit(object):
                 # this will raise a LenaKeyError.
                 contexts.append(seq._get_context())
 
+        if not contexts:
+            # all sequences are static context transparent
+            # (also when there are no sequences at all).
+            return deepcopy(self._external_context)
+
         # we don't store the static context of Split,
         # because that is already stored in an external sequence.
         context = lena.context.intersection(*contexts)
@@ -124,6 +129,8 @@ class LenaSplit(object):
         return context
 
     def _set_context(self, context):
+        # needed if no sequence has a static context
+        self._external_context = context
         if not context:
             # every sequence was already initialised with {}.
             return
